@@ -122,7 +122,7 @@ func (c *Ctx) sliceOriginOf(pkg *packages.Package, fn ast.Node, obj types.Object
 					switch cal.Name() {
 					case "Clone", "Collect", "Sorted", "Concat", "Repeat":
 						return sliceOrigin{true, "slices." + cal.Name()}
-					case "Clip", "Grow", "Compact", "CompactFunc", "Delete", "DeleteFunc", "Insert", "Replace":
+					case "Clip", "Grow", "Compact", "CompactFunc", "Delete", "DeleteFunc", "Insert", "Replace", "AppendSeq":
 						if len(t.Args) > 0 {
 							return classify(t.Args[0])
 						}
@@ -1407,6 +1407,13 @@ func ruleR095(c *Ctx) {
 				}
 				_, isLit := r.(*ast.CompositeLit)
 				if call, ok := r.(*ast.CallExpr); ok && !isLit {
+					if bid, ok := ast.Unparen(call.Fun).(*ast.Ident); ok && bid.Name == "new" {
+						if _, isB := info.Uses[bid].(*types.Builtin); isB {
+							isLit = true
+						}
+					}
+				}
+				if call, ok := r.(*ast.CallExpr); ok && !isLit {
 					// a constructor: a function that returns a list it has created itself (l := newLazyList(size),
 					// l := NewListFromIterable(li))
 					if cl, _ := c.ctorLiteral(info, call); cl != nil {
@@ -1491,6 +1498,11 @@ func returnsFreshList(c *Ctx, la *listAnchors, fn *types.Func, depth int) bool {
 			nm := namedOf(info.TypeOf(t))
 			return nm != nil && nm.Obj() == la.listType
 		case *ast.CallExpr:
+			if bid, ok := ast.Unparen(t.Fun).(*ast.Ident); ok && bid.Name == "new" {
+				if _, isB := info.Uses[bid].(*types.Builtin); isB {
+					return true
+				}
+			}
 			return returnsFreshList(c, la, Callee(info, t), depth+1)
 		case *ast.Ident:
 			if d > 2 {
